@@ -1,22 +1,45 @@
 (** * Props/C13.v — Simplification is a terminating, idempotent, cache-transparent canonicaliser.
 
     Proved here
-    - about the cache-free driver model [Simplify.simp]: results are fixed points and do not depend on
-      the fuel (so "the result" is well defined);
+    - TERMINATION of the cache-free driver model [Simplify.simp] on every well-typed expression
+      ([C13_simp_terminates]: enough fuel gives [SOk] or [SPanic], never [SFuel]; the measure is the polynomial
+      interpretation [SimplifyTermMeasure.mu], which every rule strictly decreases: [C13_rules_decrease]);
+      on expressions without a multiplication wider than 128 bits (where [baa] panics, a recorded finding)
+      the driver RETURNS a result ([C13_simp_returns]);
+    - results are fixed points and do not depend on the fuel (so "the result" is well defined);
     - about the MEMOISING driver model [SimplifyCache.simplify_cached] (work stack, persistent cache,
       re-queuing, [get_fixed_point] with pointer updates, as written in transform.rs / meta.rs):
       whatever the instance simplified before (any cache satisfying [cache_inv], which the empty cache
       does and every call preserves), a returned result is the cache-free result of that expression
       alone: cache transparency, history independence, idempotence through the cache.
-    NOT proved: termination for all inputs (the full statement is
-      forall e, wt e = true -> exists n, simp n e <> SFuel
-    and stays unproved; termination is observed under a watchdog by the correspondence check).  The
-    cache theorems are therefore stated for calls that return.  The two cache CONTAINERS are abstracted
-    to the finite-map interface they share; their agreement is checked by the correspondence (results
-    and final cache contents of both containers against the model), not proved. *)
+    The cache theorems are stated for calls of the memoising driver that return.  The two cache
+    CONTAINERS are abstracted to the finite-map interface they share; their agreement is checked by the
+    correspondence (results and final cache contents of both containers against the model), not proved.
+    Run time is not part of the statement: the fuel bound [2 * mu e] is exponential in the bit widths. *)
 From Coq Require Import List.
-From Patronus Require Import Simplify SimplifyFix SimplifyCache SimplifyCacheProofs.
+From Patronus Require Import Simplify SimplifyFix SimplifyCache SimplifyCacheProofs SimplifyBuilders
+     SimplifyTermMeasure SimplifyTermRules3 SimplifyTerm SimplifyTermNoPanic1 SimplifyTermNoPanic.
 Import ListNotations.
+
+(** ** termination *)
+Theorem C13_simp_terminates : forall e : expr, wt e = true -> exists n : nat, simp n e <> SFuel.
+Proof. exact simp_terminates. Qed.
+Print Assumptions C13_simp_terminates.
+
+(** every rule application strictly decreases the measure [mu] (well-typed node, its own children) *)
+Theorem C13_rules_decrease :
+  forall (e r : expr), wt e = true -> simplify e (children e) = Ok (Some r) -> (mu r < mu e)%N.
+Proof. exact simplify_decreases. Qed.
+Print Assumptions C13_rules_decrease.
+
+(** unless a literal product wider than 128 bits occurs ([nwm], the baa panic), the driver returns a result,
+    which is well-typed, equivalent ([ok_rw]) and a fixed point *)
+Theorem C13_simp_returns :
+  forall e : expr, wt e = true -> nwm e = true ->
+  forall n : nat, (2 * N.to_nat (mu e) <= n)%nat ->
+  exists r, simp n e = SOk r /\ ok_rw e r /\ nwm r = true /\ (mu r <= mu e)%N /\ exists m, simp m r = SOk r.
+Proof. exact simp_result. Qed.
+Print Assumptions C13_simp_returns.
 
 Theorem C13_simp_idempotent_partial :
   forall (n : nat) (e r : expr), simp n e = SOk r -> exists m, (m <= n)%nat /\ simp m r = SOk r.
